@@ -46,7 +46,7 @@ def _profiles():
 
 def plan(tier):
     main, probes = _profiles()
-    out = [{"name": "main", "examples": 3000 if tier == "quick" else 100000}, {"name": "shaped", "examples": 1500 if tier == "quick" else 40000}]
+    out = [{"name": "main", "examples": 6000 if tier == "quick" else 100000}, {"name": "shaped", "examples": 3000 if tier == "quick" else 40000}]
     for name in probes:
         out.append({"name": name, "examples": 320 if tier == "quick" else 3200, "shards": 4})
     return out
